@@ -117,6 +117,28 @@ func c09PlacementAs(p *model.Prog, r *report.Result, r4, r5 string) {
 		}
 	}
 	sameBranch := func(a, b *ssa.BasicBlock) bool { return branchOf(a) >= 0 && branchOf(a) == branchOf(b) }
+	// destination slices of block copies from a constant filler (a package-level byte block)
+	fillerDst := map[*ssa.Slice]*ssa.Call{}
+	model.EachInstr(pack, func(in ssa.Instruction) {
+		c, ok := in.(*ssa.Call)
+		if !ok {
+			return
+		}
+		if b, isB := c.Call.Value.(*ssa.Builtin); !isB || b.Name() != "copy" {
+			return
+		}
+		dst, isS := c.Call.Args[0].(*ssa.Slice)
+		if !isS || !isPacket(dst.X) || dst.Low == nil || dst.High == nil {
+			return
+		}
+		srcRoot := c.Call.Args[1]
+		if sl, isSl := srcRoot.(*ssa.Slice); isSl {
+			srcRoot = sl.X
+		}
+		if _, fromGlobal := loadOfGlobal(srcRoot); fromGlobal {
+			fillerDst[dst] = c
+		}
+	})
 	extra := func(fn *ssa.Function, in ssa.Instruction, lin func(ssa.Value) po.Lin, seqLen func(ssa.Value) po.Lin) []po.ExtraOb {
 		if fn != pack {
 			return nil
@@ -127,6 +149,21 @@ func c09PlacementAs(p *model.Prog, r *report.Result, r4, r5 string) {
 			src := stuffCopy.Call.Args[1].(*ssa.Slice)
 			end := lin(dst.Low).Add(lin(src.High).Sub(lin(src.Low)))
 			out = append(out, po.ExtraOb{Kind: "ts-payload-end", Expr: "wpos+inSize==188", Goals: []po.Ineq{{L: po.Const(188).Sub(end), Why: "payload ends at or before byte 188"}, {L: end.Sub(po.Const(188)), Why: "payload ends at or after byte 188"}}})
+		}
+		// stuffing written as one block copy from a constant filler (copy(packet[a:b], filler)):
+		// the block lies between the insertion point and the moved header. Stated at the slice
+		// expression itself, so that its own success is not among the facts.
+		if dst, ok := in.(*ssa.Slice); ok && fillerDst[dst] != nil {
+			c := fillerDst[dst]
+			for _, m := range moves {
+				if !sameBranch(m.call.Block(), c.Block()) {
+					continue
+				}
+				out = append(out, po.ExtraOb{Kind: "ts-stuffing-range", Expr: "filler@" + valueToken(dst.Low), Goals: []po.Ineq{
+					{L: lin(dst.Low).Sub(lin(m.from)), Why: "stuffing at or after the insertion point"},
+					{L: lin(m.to).Sub(lin(dst.High)), Why: "stuffing ends before the moved header"},
+					{L: lin(dst.High).Sub(lin(dst.Low)), Why: "the stuffing block is not inverted (its end is not before its start)"}}})
+			}
 		}
 		if st, ok := in.(*ssa.Store); ok {
 			if k, isK := model.ConstInt(st.Val); isK && k == 0xFF {
